@@ -174,7 +174,7 @@ def _frame(nb, label=None, quality="peaky"):
     return row
 
 
-def build_line(concrete, sit, tag):
+def build_line(concrete, sit, tag, frames=None):
     n = len(concrete)
     y0 = LINE_STEP * tag
     line = TextLine(id="l%d" % tag, baseline=np.array([[10, y0 + 10], [150, y0 + 10]]),
@@ -192,6 +192,11 @@ def build_line(concrete, sit, tag):
         rows = [_frame(nb)]
     elif sit in ("tight", "tightwin"):
         rows = [_frame(nb, lab, quality) for lab in labels]
+    elif frames:
+        # a LONG line: the characters spread evenly over `frames` frames (a wide crop), blank everywhere else
+        rows = [_frame(nb, None, quality) for _ in range(frames)]
+        for p, lab in zip(np.linspace(5, frames - 5, len(labels)).astype(int), labels):
+            rows[p] = _frame(nb, lab, quality)
     else:
         rows = [_frame(nb, None, quality)]
         for lab in labels:
@@ -225,7 +230,7 @@ def build_page(case):
         region = RegionLayout("r%d" % k, poly)
         for ln in blk["lines"]:
             tag += 1
-            tl = build_line(ln["concrete"], ln["sit"], tag)
+            tl = build_line(ln["concrete"], ln["sit"], tag, ln.get("frames"))
             region.lines.append(tl)
             lines.append(tl)
         page.regions.append(region)
